@@ -24,6 +24,10 @@ FLOORS = {'quick': {'insert-accepted': 400, 'probe-lib': 4000, 'probe-defn': 400
           'thorough': {'insert-accepted': 5000, 'probe-lib': 50000}}
 MANDATORY_TAGS = ['single-precision-neighbour', 'helper-default:ulp-below', 'helper-default:exact', 'large', 'pdim1', 'pdim2', 'pdim3', 'twins', 'rational', 'on-knot', 'in-span', 'multi-dir', 'via:method', 'via:operations',
                   'r>=2', 'unnormalized', 'dir:u', 'dir:v', 'dir:w', 'same-value-again', 'unclamped', 'on-domain-end', 'short-knot-range']
+try:                                   # (the single-precision class needs numpy, which /venv provides with the repository's requirements)
+    import numpy as _np_probe          # noqa: F401
+except ImportError:
+    MANDATORY_TAGS = [t_ for t_ in MANDATORY_TAGS if t_ != 'single-precision-neighbour']
 TECHNIQUE = ("runtime monitoring: shadow-model oracle (exact reference of the original definition) evaluated after every step of "
              "a seeded insertion history, plus an all-call post-condition hook on helpers.knot_insertion/_kv")
 LEVEL_TEXT = ("Every insertion the workload performs is followed by an exact comparison of the live object and of its new "
